@@ -154,6 +154,13 @@ def check(ctx):
     ws = rnd.func("_weighted_sampling_without_replacement")
     ok = bool(find("elt = [(math.log(rnd.random()) / weights[i], i) for i in range(len(weights))]", ws)) and any(eqv(r.value, "[population[x[1]] for x in heapq.nlargest(k, elt)]") for r in returns(ws))
     ctx.ob("ALG.sample.by-position", ws, "keys are computed per position i and the k largest positions are returned", ok, "" if ok else "sampling by value merges duplicate elements (and needs hashable elements): fewer candidates than the population holds")
+    # ---------------- per-partition sampling treats its input as a one-shot ITERATOR (partitions after map/filter are iterators)
+    swr = rnd.func("_sample_with_replacement_map_partitions")
+    lens = [c for c in calls(swr, "len") if c.args and eqv(c.args[0], "population")]
+    st = find("stream = iter(population)", swr)
+    k0 = [n for n in walk_no_nested(swr) if isinstance(n, ast.If) and eqv(n.test, "k == 0")]
+    ok = not lens and len(st) == 1 and len(k0) == 1 and dominates(swr, st[0][0], k0[0]) and any(eqv(r.value, "([], sum((1 for _ in stream)))") for r in returns(k0[0]))
+    ctx.ob("TYPE.sample-partition.iterator", swr, "the population is only iterated (stream = iter(population)); k == 0 counts it with sum(1 for _ in stream), never len()", ok, "" if ok else "len() of an iterator partition raises TypeError: choices(b, 0) fails after filter/map/random_sample")
 
 
 VARIANTS = [
